@@ -2848,11 +2848,19 @@ pub(crate) mod convert {
                     if attr.name() == constants::DW_AT_vtable_elem_location {
                         let bytecode = expression.0.to_slice()?;
                         if bytecode.first().copied() == Some(constants::DW_OP_constu.0) {
-                            // This is a vtable index. We must preserve the DW_OP_constu
-                            // operation because gdb checks for it.
-                            // `convert_expression` is unsuitable because it may convert
-                            // to something like DW_OP_lit0.
-                            return Ok(AttributeValue::Exprloc(Expression::raw(bytecode.to_vec())));
+                            // Only copy the expression if it is exactly one DW_OP_constu;
+                            // any following operations must be converted as usual.
+                            let mut operand = expression.0.clone();
+                            operand.skip(R::Offset::from_u8(1))?;
+                            if operand.read_uleb128().is_ok() && operand.is_empty() {
+                                // This is a vtable index. We must preserve the DW_OP_constu
+                                // operation because gdb checks for it.
+                                // `convert_expression` is unsuitable because it may convert
+                                // to something like DW_OP_lit0.
+                                return Ok(AttributeValue::Exprloc(Expression::raw(
+                                    bytecode.to_vec(),
+                                )));
+                            }
                         }
                     }
                     let expression =
